@@ -28,9 +28,10 @@ for d in sorted(os.listdir(S)):
     md = open(os.path.join(p, 'notes.md')).read()
     files = sorted(set(re.findall(r'^\+\+\+ b/(\S+)', open(os.path.join(p, 'patch.diff')).read(), re.M)))
     r = res.get(d, {})
+    prop = 'C02' if d == 'M01' else d[:3]
     fired = {k: v for k, v in r.get('checks', {}).items() if v != 'ok'}
     meta = dict(
-        seed=d, property=('C02' if d == 'M01' else d[:3]), batch=2 if d.endswith('-b') else 1,
+        seed=d, property=prop, batch=3 if d.endswith('-c') else 2 if d.endswith('-b') else 0 if d.startswith('M') else 1,
         files_changed=files,
         change=section(md, r'change|idea') or md.split('\n')[0].lstrip('# '),
         breaks=section(md, r'break|statement'),
@@ -42,7 +43,7 @@ for d in sorted(os.listdir(S)):
                                  'demo test fails with the change', 'demo test passes with the change reverted'],
                           result=r.get('confirmed', 'not recorded')),
         checks_run=dict(command='tools/tryseed.sh %s <checks> / tools/seedmatrix.py (private clone of /repo with the patch applied; /repo itself untouched)' % d,
-                        own_check=r.get('checks', {}).get(d[:3], 'not recorded'),
+                        own_check=r.get('checks', {}).get(prop, 'not recorded'),
                         fired=fired, note=r.get('note', '')),
     )
     json.dump(meta, open(os.path.join(p, 'meta.json'), 'w'), indent=1)
